@@ -9,12 +9,14 @@ import (
 	"sync"
 	"testing"
 	"testing/synctest"
+	"time"
 
 	"github.com/openconfig/gnmi/connection"
 	"github.com/openconfig/gnmi/verifhook"
 	"google.golang.org/grpc"
 	"google.golang.org/grpc/connectivity"
 	"google.golang.org/grpc/credentials/insecure"
+	"verif/harness/internal/vstat"
 )
 
 // verr is an oracle verdict: class names the violated clause.
@@ -746,6 +748,15 @@ func (h *harness) doCancel(s int, st Step) (string, *verr) {
 	switch {
 	case origin:
 		desc += fmt.Sprintf(" (it started %s)", h.attName(t))
+		pending := 0
+		for _, c := range h.cur {
+			if c != nil && c.state == attInflight {
+				pending++
+			}
+		}
+		if pending > 32 {
+			h.label("originator-cancelled-while-more-than-32-dials-pending")
+		}
 	case !r.observed:
 		desc += " (it waits for a dial started by another request)"
 		h.label("joiner-ctx-cancelled-while-waiting")
@@ -1171,6 +1182,11 @@ func runCase(t *testing.T, sc *Scenario) (st stats, err error) {
 			}
 		}
 	}()
+	// a goroutine of the code under test that blocks on a channel while holding the
+	// Manager's lock leaves the others blocked on a mutex, which synctest does not
+	// regard as durable: neither Wait nor the virtual clock makes progress. The
+	// watchdog's verdict is structural (see vstat.Watchdog), not a timeout.
+	defer vstat.Watchdog(20*time.Second, 5*time.Second)()
 	synctest.Test(t, func(*testing.T) {
 		defer func() {
 			if r := recover(); r != nil {
